@@ -80,6 +80,7 @@ type PathState struct {
 	concBudget  int
 	concDone    bool
 	concJoining bool
+	gorPreempt  int
 	trace     []string
 	concPos   int
 	env       map[string]Value // scratch for models (per-path)
